@@ -1,6 +1,9 @@
 package main
 
 import (
+	gogit "github.com/go-git/go-git/v5"
+	"github.com/go-git/go-git/v5/plumbing"
+
 	"fmt"
 	"strings"
 
@@ -45,9 +48,10 @@ func runC08(c *runCtx) {
 	for i := 0; i < N; i++ {
 		r := c.rng.fork()
 		var repo repository.TestedRepo
+		dir := ""
 		backend := "mock"
 		if i%4 == 3 {
-			repo, _ = newGoGit("c08", false)
+			repo, dir = newGoGit("c08", false)
 			backend = "gogit"
 		} else {
 			repo = newMock()
@@ -148,6 +152,7 @@ func runC08(c *runCtx) {
 				repo.RemoveRef(ref)
 				commits = append(commits, cm)
 				verdicts = append(verdicts, verdict)
+				_ = head
 				// oracle: the rule of C08, evaluated naively
 				var inForce []string
 				for _, h := range hist {
@@ -169,6 +174,50 @@ func runC08(c *runCtx) {
 				if verdict != want {
 					c.violation(c.nCases, "C08/verdict", fmt.Sprintf("commit at time %d, keys in force %v, signed by %v: %s, expected %s (%s)", T, inForce, cm["key"], verdict, want, backend), hist)
 				}
+				// an accepted signed commit was just read in this process: the same content presented
+				// again without its signature, under another signature, or (go-git) altered under the
+				// same signature must still be refused
+				if verdict == "accepted" && s != nil && len(inForce) > 0 {
+					cmt, _ := repo.ReadCommit(head)
+					type variant struct {
+						name string
+						head repository.Hash
+						cm   map[string]any
+					}
+					var vs []variant
+					if h2, err := repo.StoreCommit(cmt.TreeHash); err == nil {
+						vs = append(vs, variant{"replayed-unsigned", h2, map[string]any{"t": T, "good": true}})
+					}
+					if h2, err := repo.StoreSignedCommit(cmt.TreeHash, stranger.PGPEntity()); err == nil {
+						vs = append(vs, variant{"replayed-stranger", h2, map[string]any{"t": T, "good": true, "key": keyName(stranger)}})
+					}
+					if backend == "gogit" {
+						if h2 := alterSignedCommit(dir, head); h2 != "" {
+							vs = append(vs, variant{"altered-same-signature", h2, map[string]any{"t": T, "good": false, "key": keyName(s)}})
+						}
+					}
+					for _, v := range vs {
+						repo.UpdateRef(ref, v.head)
+						var verdict2 string
+						var rerr2 error
+						if p := recoverTo(func() { _, rerr2 = bug.Read(repo, cop.Id()) }); p != "" {
+							verdict2 = "panic"
+						} else if rerr2 == nil {
+							verdict2 = "accepted"
+						} else if strings.Contains(rerr2.Error(), "signature failure") {
+							verdict2 = "signatureError"
+						} else {
+							verdict2 = "other:" + rerr2.Error()
+						}
+						repo.RemoveRef(ref)
+						commits = append(commits, v.cm)
+						verdicts = append(verdicts, verdict2)
+						c.count("variant=" + v.name + "/" + strings.SplitN(verdict2, ":", 2)[0])
+						if verdict2 != "signatureError" {
+							c.violation(c.nCases, "C08/"+v.name, fmt.Sprintf("after a validly signed commit was read, the same pack %s at time %d (keys in force %v) is %s (%s)", v.name, T, inForce, verdict2, backend), hist)
+						}
+					}
+				}
 			}
 		}
 		c.emit(map[string]any{"cmd": "check", "clock": "bugs-edit", "versions": versions, "commits": commits, "backend": backend}, verdicts)
@@ -179,4 +228,28 @@ func runC08(c *runCtx) {
 			cleanupScratch()
 		}
 	}
+}
+
+// alterSignedCommit rewrites, with go-git directly, a signed commit with another commit message
+// and the signature kept as it is: the signature no longer covers the content.
+func alterSignedCommit(dir string, h repository.Hash) repository.Hash {
+	gr, err := gogit.PlainOpen(dir)
+	if err != nil {
+		return ""
+	}
+	cm, err := gr.CommitObject(plumbing.NewHash(string(h)))
+	if err != nil || cm.PGPSignature == "" {
+		return ""
+	}
+	alt := *cm
+	alt.Message = cm.Message + "altered"
+	obj := gr.Storer.NewEncodedObject()
+	if err := alt.Encode(obj); err != nil {
+		return ""
+	}
+	nh, err := gr.Storer.SetEncodedObject(obj)
+	if err != nil {
+		return ""
+	}
+	return repository.Hash(nh.String())
 }
